@@ -120,6 +120,14 @@ class SegInst(BaseInstance):
             v = eng.read(st, args[0])
             s.callback(eng, st, 'expiration', [v])
             return R(v[1])
+        if c == '<E as Expiration>::max_expiration':
+            return R(bv((1 << EW) - 1, EW))                      # E is the unsigned EW-bit stand-in: E::MAX
+        m = re.match(r'^<E as Ord>::(min|max)$', c)
+        if m:
+            a, b = args[0], args[1]
+            pick_b = z3.ULT(b, a) if m.group(1) == 'min' else z3.UGE(b, a)   # std: min -> b if b < a, max -> b if b >= a
+            r = z3.If(pick_b, b, a)
+            return R(z3.simplify(r) if z3.is_bv_value(a) and z3.is_bv_value(b) else r)
         m = re.match(r'^<E as PartialOrd>::(gt|ge|lt|le)$', c)
         if m:
             a = eng.read(st, args[0]); b = eng.read(st, args[1])
